@@ -521,7 +521,7 @@ Arguments obj_cond_kw {val M}. Arguments run_steps_kw {val M}. Arguments obj_kin
 Arguments obj_const {val M}.
 Arguments jdims {val M}. Arguments stacked_call {val M}. Arguments obj_stack {val M}. Arguments obj_view {val M}.
 Arguments post_cond {val M}. Arguments bp_set_data {val M}.
-Arguments obj_join {val M}. Arguments obj_factor {val M}. Arguments obj_mkpost {val M}. Arguments obj_setlik {val M}. Arguments obj_setprior {val M}.
+Arguments attrs_ok {val M}. Arguments obj_join {val M}. Arguments obj_factor {val M}. Arguments obj_mkpost {val M}. Arguments obj_setlik {val M}. Arguments obj_setprior {val M}.
 
 (* ------------------------------------------------------------------------------------------ *)
 (* _StackedJointDistribution.logd(stacked_input): np.split(x, cumsum(dims)[:-1]) -- the last piece
